@@ -772,6 +772,94 @@ var c16FinalOrder = []int{10, 11, 12, 13, 14, 15}
 // permissions of the restricted CALLT callers (h0 = the proxy P holding the final methods, h1 = another contract)
 var c16TokPerms = []c16Perm{{"h0", []string{"lput"}}, {"*", []string{"note", "slput"}}, {"h1", nil}, {"h0", []string{}}, {"h0", nil}}
 
+// ---------- the executing contract changes itself, then calls ----------
+
+type c16SelfIn struct {
+	Stage  int    `json:"stage"`  // 0 before Domovoi, 1 after
+	Helper string `json:"helper"` // HW: permissions [Management:*, C:[a]] (update widens), HN: [Management:*, C:*] (update narrows)
+	Action string `json:"action"` // none | update | destroy | deploy (deploys another contract and calls that one)
+	Via    string `json:"via"`    // call (System.Contract.Call) | callt
+	Method string `json:"method"` // a | b | s
+}
+
+func (env *c16Env) runSelfCall(co *caseOut, in c16SelfIn) {
+	s, err := c16SelfGet(in.Stage)
+	if err != nil {
+		co.violation("selfcall", "harness: "+err.Error(), in, nil)
+		return
+	}
+	h, wideLoaded := s.HW, false
+	if in.Helper == "HN" {
+		h, wideLoaded = s.HN, true
+	}
+	mi := map[string]int{"a": 0, "b": 1, "s": 2}[in.Method]
+	target := s.C.Hash
+	var script []byte
+	switch {
+	case in.Action == "deploy":
+		d := c16Build(s.c.owner.ScriptHash(), s.spec("SD", []manifest.Permission{*manifest.NewPermission(manifest.PermissionWildcard)}, nil, util.Uint160{}))
+		nb, _ := d.NEF.Bytes()
+		mb, _ := json.Marshal(d.Manifest)
+		target = d.Hash
+		in.Via = "call"
+		script = c16Code(func(w *io.BinWriter) { c16EmitCall(w, h.Hash, "dep_fwd", 15, nb, mb, target, in.Method, 15, []any{}) })
+	case in.Via == "callt":
+		script = c16Code(func(w *io.BinWriter) {
+			switch in.Action {
+			case "update":
+				c16EmitCall(w, h.Hash, fmt.Sprintf("u_t%d", mi), 15, s.newManifest(in.Helper, s.perms(!wideLoaded), nil))
+			case "destroy":
+				c16EmitCall(w, h.Hash, fmt.Sprintf("d_t%d", mi), 15)
+			default:
+				c16EmitCall(w, h.Hash, fmt.Sprintf("n_t%d", mi), 15)
+			}
+		})
+	default:
+		script = c16Code(func(w *io.BinWriter) {
+			switch in.Action {
+			case "update":
+				c16EmitCall(w, h.Hash, "u_fwd", 15, s.newManifest(in.Helper, s.perms(!wideLoaded), nil), target, in.Method, 15, []any{})
+			case "destroy":
+				c16EmitCall(w, h.Hash, "d_fwd", 15, target, in.Method, 15, []any{})
+			default:
+				c16EmitCall(w, h.Hash, "fwd", 15, target, in.Method, 15, []any{})
+			}
+		})
+	}
+	obs, _ := s.c.invoke(script, env.signers, h.Hash, 2, trigger.Application, callflag.All, false)
+	ran := false
+	for _, x := range obs.Callees {
+		ran = ran || x == target.StringLE()
+	}
+	if !obs.Reached || (obs.State != "HALT" && !strings.Contains(obs.Fault, "disallowed method call")) {
+		co.violation("selfcall", "harness: unexpected outcome: "+obs.State+" "+obs.Fault, in, obs)
+		return
+	}
+	if ran != (obs.State == "HALT") {
+		co.violation("selfcall", "callee ran although the call was refused (or the reverse)", in, obs)
+	}
+	perm := func(wide bool) string {
+		if wide {
+			return "[mk_perm (DHash 2) MWild; mk_perm (DHash 1) MWild]"
+		}
+		return "[mk_perm (DHash 2) MWild; mk_perm (DHash 1) (MList [\"a\"%string])]"
+	}
+	loaded := perm(wideLoaded)
+	current := "(Some " + loaded + ")"
+	callee := "(mk_callee 1 [])"
+	switch in.Action {
+	case "update":
+		current = "(Some " + perm(!wideLoaded) + ")"
+	case "destroy":
+		current = "None"
+	case "deploy":
+		callee = "(mk_callee 3 [])"
+	}
+	tag := fmt.Sprintf("stage%d/%s/%s/%s", in.Stage, in.Helper, in.Action, in.Via)
+	co.add("selfcall", tag, in.Method != "s", in, obs, fmt.Sprintf("CSelfCall %s %s %s %s %s%%string %s %s",
+		coqBool(in.Stage == 1), loaded, current, callee, coqStr(in.Method), coqBool(in.Method == "s"), coqBool(ran)))
+}
+
 // ---------- native -> contract callbacks ----------
 
 // a contract whose onNEP17Payment and _deploy try capability k; also a forwarder so that it can be the caller
@@ -1674,6 +1762,9 @@ func runC16(cmd string, args []string) error {
 		if env.hc != nil {
 			env.hc.close()
 		}
+		if c16SelfInst != nil {
+			c16SelfInst.c.close()
+		}
 	}()
 	want := func(k string) bool { return *only == "" || strings.Contains(","+*only+",", ","+k+",") }
 
@@ -1714,6 +1805,10 @@ func runC16(cmd string, args []string) error {
 				var in c16PermIn
 				json.Unmarshal(x.Input, &in)
 				env.runPermCall(co, in)
+			case "selfcall":
+				var in c16SelfIn
+				json.Unmarshal(x.Input, &in)
+				env.runSelfCall(co, in)
 			case "nativest":
 				var in c16NatStIn
 				json.Unmarshal(x.Input, &in)
@@ -1882,6 +1977,21 @@ func runC16(cmd string, args []string) error {
 			}
 		}
 	}
+	// the executing contract updates / destroys itself (or deploys the callee) and then calls, before and after Domovoi
+	if ex && want("selfcall") {
+		for stage := 0; stage <= 1; stage++ {
+			for _, hp := range []string{"HW", "HN"} {
+				for _, m := range []string{"a", "b", "s"} {
+					for _, act := range []string{"none", "update", "destroy"} {
+						for _, via := range []string{"call", "callt"} {
+							env.runSelfCall(co, c16SelfIn{Stage: stage, Helper: hp, Action: act, Via: via, Method: m})
+						}
+					}
+					env.runSelfCall(co, c16SelfIn{Stage: stage, Helper: hp, Action: "deploy", Via: "call", Method: m})
+				}
+			}
+		}
+	}
 	// native -> contract callbacks: every path x 4 capability probes x 16 flag sets of the native's frame
 	if ex && want("callback") {
 		for _, path := range c16CbPaths {
@@ -2039,7 +2149,7 @@ func runC16(cmd string, args []string) error {
 	co.extra["exhaustive"] = ex && *only == ""
 	if ex {
 		co.extra["x_universe"] = "sys: all system calls of the table x 16 flag sets (block-trigger calls: the node's flag set and the refused ones); native: all methods (latest hard-fork set) x 16 flag sets x {called by the entry script, called by a contract}; " +
-			"nativest: every native method on the Policy fee whitelist (fee 0 / 7; called by entry and by a contract) and every method of every older hard-fork table on a chain staged through the hard-forks, under the flag sets that discriminate its gate (thorough: all 16); the proxy's system-call methods whitelisted; calls into a blocked contract; callback: 8 native->contract callback paths (GAS/NEO transfer, vote, blockAccount, destroy, deploy, update, Notary deposit) x 4 capability probes x 16 flag sets; chain: all chains of length 0 and 1 (16 x 3 hop kinds x 16 x 5 finals); callt: 16 frame flag sets x 16 token flag sets x 6 final methods through the CALLT opcode, and 5 restricted-permission CALLT callers x 6 methods; perm1: 6 descriptors x 5 method lists x 12 callees x 3 methods; permitem: the 30 permissions' real stack items; permstored: 30 permissions x 12 callees x 4 methods x 3 stored forms; permcall: 30 single-permission deployed callers x 3 deployed callees x 4 methods, before and after a node restart over the same LevelDB; " +
+			"selfcall: {before, after Domovoi} x {narrow->wide, wide->narrow permissions} x {no change, update self, destroy self, deploy the callee} x {System.Contract.Call, CALLT} x {permitted, not permitted, safe method}; nativest: every native method on the Policy fee whitelist (fee 0 / 7; called by entry and by a contract) and every method of every older hard-fork table on a chain staged through the hard-forks, under the flag sets that discriminate its gate (thorough: all 16); the proxy's system-call methods whitelisted; calls into a blocked contract; callback: 8 native->contract callback paths (GAS/NEO transfer, vote, blockAccount, destroy, deploy, update, Notary deposit) x 4 capability probes x 16 flag sets; chain: all chains of length 0 and 1 (16 x 3 hop kinds x 16 x 5 finals); callt: 16 frame flag sets x 16 token flag sets x 6 final methods through the CALLT opcode, and 5 restricted-permission CALLT callers x 6 methods; perm1: 6 descriptors x 5 method lists x 12 callees x 3 methods; permitem: the 30 permissions' real stack items; permstored: 30 permissions x 12 callees x 4 methods x 3 stored forms; permcall: 30 single-permission deployed callers x 3 deployed callees x 4 methods, before and after a node restart over the same LevelDB; " +
 			"thorough adds chains of length 2 over 6 flag sets and all pairs of permissions with distinct descriptors"
 	}
 	co.extra["x_witnessed"] = c16Witnessed(co)
